@@ -1,10 +1,12 @@
 #!/bin/sh
-# try_all.sh <patch.diff> : apply the patch to /repo, run every quick check, undo the patch; one line per property
+# try_all.sh <patch.diff> : apply the patch to the repo ($VERIF_REPO, default /repo), run every quick check, undo the patch; one line per property
 PATCH="$1"
-cd /repo || exit 2
+REPO="${VERIF_REPO:-/repo}"
+V="$(cd "$(dirname "$0")/.." && pwd)"
+cd "$REPO" || exit 2
 git diff --quiet || { echo "repo not clean"; exit 2; }
 git apply "$PATCH" || { echo "patch does not apply"; exit 2; }
 for p in C01 C02 C03 C04 C05 C06 C07 C08 C09 C10 C11 C12 C13 C14 C15 C16 C17 C18 C19 C20; do
-  (cd /verif && ./check $p 2>&1 | grep -v "^\[check\]" | grep "tier=\|VIOLATION" | tr '\n' ' ' | cut -c1-260); echo
+  (cd "$V" && ./check $p 2>&1 | grep -v "^\[check\]" | grep "tier=\|VIOLATION" | tr '\n' ' ' | cut -c1-260); echo
 done
-git -C /repo checkout -- .
+git -C "$REPO" checkout -- .
